@@ -23,6 +23,7 @@ type C04 struct {
 	nmut   int
 	nrand  int
 	render int // round-trip disagreements generator vs recogniser (harness self-check)
+	regen  string
 }
 
 func NewC04(st *Stats) *C04 { return &C04{stats: st} }
@@ -44,6 +45,10 @@ func (p *C04) Prepare(env *Env, tier string, seed uint64) error {
 		nSent, nRandTok = 14000, 120000
 	}
 	r := model.NewRand(seed, "C04/gen")
+	// auxiliary, not simulation: the committed parser must be what goyacc
+	// generates from chords.y (regenerated at build time, see Env.GoyaccRegen)
+	p.regen = env.GoyaccRegen
+	p.cases = append(p.cases, &Case{Property: "C04", Kind: "regen", Seed: seed, Run: 0, Labels: []string{"goyacc-regeneration"}})
 	mk := func(kind string, labels []string, text []byte, mode string, full bool) {
 		c := &Case{Property: "C04", Kind: kind, Seed: seed, Run: len(p.cases), Labels: labels, Params: map[string]string{"mode": mode}}
 		parse := Step{Step: simrt.Step{Argv: []string{"text", "parse"}, Seed: r.U64(), Stdin: &simrt.Stream{Data: text, Plan: GenPlan(r)}}, Note: "parse"}
@@ -292,6 +297,13 @@ func refused(r *Result) bool {
 
 func (p *C04) Evaluate(env *Env, c *Case) (*Outcome, error) {
 	out := &Outcome{Results: make([]*Result, len(c.Steps))}
+	if c.Kind == "regen" {
+		if strings.HasPrefix(env.GoyaccRegen, "differs") {
+			out.Findings = append(out.Findings, Finding{Signature: "C04/parser-is-not-goyacc-output",
+				Detail: "input/ast/chords_goyacc_generated.go is not what `go tool goyacc` generates from input/ast/chords.y: " + env.GoyaccRegen})
+		}
+		return out, nil
+	}
 	for i := range c.Steps {
 		r, err := env.Exec(&c.Steps[i])
 		if err != nil {
@@ -373,6 +385,9 @@ func (p *C04) Evaluate(env *Env, c *Case) (*Outcome, error) {
 
 func (p *C04) Shrinks(c *Case) []*Case {
 	var out []*Case
+	if c.Kind == "regen" {
+		return nil
+	}
 	if len(c.Steps) > 1 {
 		for i := range c.Steps {
 			d := c.Clone()
@@ -405,7 +420,8 @@ func (p *C04) Extra() map[string]any {
 		"token_mutations":            p.nmut,
 		"random_token_strings":       p.nrand,
 		"generator_vs_recogniser_disagreements": p.render,
-		"not_covered":                "goyacc regeneration of chords_goyacc_generated.go (translation validation) and bounded-exhaustive enumeration of all strings (model checking)",
+		"goyacc_regeneration":        p.regen,
+		"not_covered":                "bounded-exhaustive enumeration of all strings (model checking); the goyacc clause is only checked by an auxiliary regenerate-and-compare step at build time, which is not simulation",
 	}
 }
 
